@@ -387,6 +387,15 @@ func (rs *RawServer) WaitFor(pred func() bool) bool {
 	return true
 }
 
+// WaitNew blocks (without regard to stalls) until pred holds or the stream ended.
+//
+//go:norace
+func (rs *RawServer) WaitNew(pred func() bool) {
+	for !pred() && !rs.Ended {
+		simrt.BlockOn(unsafe.Pointer(&rs.key))
+	}
+}
+
 // NewStreams returns the new_stream frames received so far.
 //
 //go:norace
